@@ -14,24 +14,25 @@ import (
 )
 
 type Config struct {
-	MaxSteps    int    // instructions per path
-	MaxDepth    int    // call depth
-	MaxEnum     int    // largest range enumerated for a symbolic int
-	MaxAlloc    int    // largest concrete allocation (elements)
-	MaxPaths    int    // per harness
-	Solver      string // z3 | z3-new | cvc5 : FP-free queries
-	FPSolver    string // solver for queries that mention floating point
-	TimeoutMs   int    // per query
-	FPTimeoutMs int    // per floating-point query (default min(TimeoutMs, 60 s))
-	ForkHardFP  bool   // do not ask the solver about branches on symbolic FP division / sqrt: explore both sides
-	MapOrderMax int    // maps with 2..k entries are ranged in every order
-	Workers     int
-	Verbose     bool
-	ModulePath  string      // packages under this prefix are (re)initialised per path
-	LogSMT      string      // file prefix for SMT logs (debug)
-	StopOnFirst bool        // stop exploring after first violation
-	CrossCheck  string      // second solver to re-ask every unsat assertion (thorough)
-	Concrete    []ReplayVal // concrete mode: nondets are read from this vector
+	MaxSteps      int    // instructions per path
+	MaxDepth      int    // call depth
+	MaxEnum       int    // largest range enumerated for a symbolic int
+	MaxAlloc      int    // largest concrete allocation (elements)
+	MaxPaths      int    // per harness
+	Solver        string // z3 | z3-new | cvc5 : FP-free queries
+	FPSolver      string // solver for queries that mention floating point
+	TimeoutMs     int    // per query
+	FPTimeoutMs   int    // per floating-point query (default min(TimeoutMs, 60 s))
+	SynctestEpoch bool   // native replay runs in a testing/synctest bubble: wall clock starts at 2000-01-01
+	ForkHardFP    bool   // do not ask the solver about branches on symbolic FP division / sqrt: explore both sides
+	MapOrderMax   int    // maps with 2..k entries are ranged in every order
+	Workers       int
+	Verbose       bool
+	ModulePath    string      // packages under this prefix are (re)initialised per path
+	LogSMT        string      // file prefix for SMT logs (debug)
+	StopOnFirst   bool        // stop exploring after first violation
+	CrossCheck    string      // second solver to re-ask every unsat assertion (thorough)
+	Concrete      []ReplayVal // concrete mode: nondets are read from this vector
 }
 
 func DefaultConfig() Config {
